@@ -94,6 +94,19 @@ CLAIMED = {
                 "cffi are not installed, so the bindings are parsed rather than compiled.",
         "technique": "translation validation: regenerated fact lists + sound boolean checkers evaluated in Coq",
     },
+    "C01": {
+        "text": "Machine-checked theorems over EVERY well-formed static file system, path, trailing mode and NO_SYMLINKS setting: the "
+                "emulated walk equals the kernel reference walk whenever the kernel stays within its 40-link budget; both walks only "
+                "return objects reachable from the root; the empty path is ENOENT; loops end in ELOOP (total functions). The reference "
+                "walk is validated against the running kernel's raw openat2 and the emulated-walk model against the library's emulated "
+                "backend on every run, on generated trees/paths; the library (resolve, readlink, open_subpath incl. F_GETFL) is compared "
+                "with raw openat2 under both kernel feature sets.",
+        "note": "Trusted: Coq kernel (no axioms); the hand-written walk models coq/theories/FSModel.v (kwalk = description of Linux, "
+                "ewalk = description of imp.rs on a static tree), both tied by differential runs on sampled trees, not proved equal to "
+                "the C/Rust code; the step from the syscall-level model (Prog) to ewalk is covered by T1 replay in C05/C11, not by a "
+                "theorem. No DAC/MAC permissions modelled. Known finding F-H (41..127 links).",
+        "technique": "Coq proof (simulation between two component-queue machines over an abstract FS) + differential against the kernel's raw openat2",
+    },
 }
 
 PENDING_REASON = "check not registered yet in this round (design in DESIGN.md §%s; being built)"
